@@ -3,7 +3,7 @@
   Model: ILV.Model.EStep with the incremental engine on (`Inc`): shadow writes carry the logical time
   taken in step 1 of the write, consistent reads advance every input session past `max_write_time`.
 -/
-import ILV.Lemmas.EStep
+import ILV.Lemmas.EInc
 namespace ILV.Props.C19
 open ILV ILV.EStep
 
@@ -39,5 +39,23 @@ example : ((lastState (init witnessProgs true) witnessSched).threads 0).done.map
 example : ((lastState (init witnessProgs true) witnessSched).threads 2).done.map (·.2.1) = [.rows [2]] := by decide
 example : (lastState (init witnessProgs true) witnessSched).live 0 = [2, 1] := by decide
 example : (lastState (init witnessProgs true) witnessSched).snap 0 = [2] := by decide
+
+/-- Partial: for every single-threaded history (any program of inserts with duplicates inside a batch,
+    re-inserts, deletes of present and absent tuples, snapshot queries and consistent reads, any
+    schedule of that one thread) the worker stays alive and a consistent read of any relation returns
+    exactly the live relation. Since any prefix of a program is a program, this covers a read at every
+    moment of every sequential history. Proof: invariant `InvS` — per (relation, tuple) the diffs sent to
+    the arrangement sum to 1 if the tuple is live and 0 otherwise; logical times strictly increase, so every
+    shadow write is at or above every input-session time. -/
+theorem C19_sequential (p : List Op) (sched : List Tid) (r : Rel) :
+    ReadMirrors (lastState (init [p] true) sched) r := by
+  obtain ⟨i, hi⟩ := lastState_invS sched _ _ (invS_init p)
+  obtain ⟨l, hl, hm⟩ := invS_read hi r
+  exact ⟨i, hi.hinc, l, hl, hm⟩
+
+/-- a non-trivial sequential history: duplicate inside a batch, re-insert, absent delete, read in between -/
+def seqProg : List Op := [.insert 0 [1, 1, 2], .readc 0, .delete 0 [2, 7], .insert 0 [2], .insert 1 [5], .delete 0 [1]]
+example : (lastState (init [seqProg] true) (List.replicate 20 0)).live 0 = [2] := by decide
+example : ((lastState (init [seqProg] true) (List.replicate 20 0)).inc.map (fun i => (i.readc 0).2)) = some (.rows [2]) := by decide
 
 end ILV.Props.C19
